@@ -855,18 +855,23 @@ func (c *Ctx) Script(asserts []*Term, getValues []*Term, forCVC5 bool) string {
 			fmt.Fprintf(&sb, "(assert %s)\n", printTerm(a, names))
 		}
 	}
+	for i, g := range getValues {
+		var body string
+		if n, ok := names[g.id]; ok {
+			body = n
+		} else {
+			body = printTerm(g, names)
+		}
+		fmt.Fprintf(&sb, "(define-fun rv!%d () %s %s)\n", i, g.sort, body)
+	}
 	sb.WriteString("(check-sat)\n")
 	if len(getValues) > 0 {
 		sb.WriteString("(get-value (")
-		for i, g := range getValues {
+		for i := range getValues {
 			if i > 0 {
 				sb.WriteString(" ")
 			}
-			if n, ok := names[g.id]; ok {
-				sb.WriteString(n)
-			} else {
-				sb.WriteString(printTerm(g, names))
-			}
+			fmt.Fprintf(&sb, "rv!%d", i)
 		}
 		sb.WriteString("))\n")
 	}
